@@ -83,7 +83,13 @@ PATHS = ['/a', '/', '/a/', '/%C3%A9', '/%E2%82', '/%FF', '/a%2Fb', '/a+b', '//',
          '/a//', '///']
 BODIES = [('none', None, None), ('empty', b'', None), ('json', b'{"k": "v\\u00e9", "n": [1, 2]}', 'application/json'),
           ('raw3', b'abc', 'application/octet-stream'), ('form', b'a=5&c=6', 'application/x-www-form-urlencoded'),
-          ('badjson', b'{"k": ', 'application/json')]
+          ('badjson', b'{"k": ', 'application/json'),
+          # a form with a part of EXACTLY the configured max_body_part_buffer_size (64), one byte less and one more
+          ('mp', (b'--BB\r\nContent-Disposition: form-data; name="at"\r\n\r\n' + b'x' * 64 +
+                  b'\r\n--BB\r\nContent-Disposition: form-data; name="under"; filename="u.bin"\r\n\r\n' + b'y' * 63 +
+                  b'\r\n--BB\r\nContent-Disposition: form-data; name="over"\r\n\r\n' + b'z' * 65 +
+                  b'\r\n--BB--\r\n'), 'multipart/form-data; boundary=BB')]
+MP_PART_LIMIT = 64
 CHUNKS = ['one', 'bytes', 'trailing']
 NETS = [('http', 'falconframework.org', 80, '', '127.0.0.1', '1.1'),
         ('https', 'ex.org', 443, '/app', '10.0.0.1', '1.1'),
@@ -235,9 +241,13 @@ def _logic(op, nm, is_async, req, resp, kw):
         resp.data = json.dumps(dg, ensure_ascii=True).encode('ascii')
         resp.content_type = 'application/x-digest'
     elif op == 'media':
-        m = yield 'media'
-        again = yield 'media'
-        resp.media = {'got': m, 'same': m == again, 'ctype': req.content_type}
+        if (req.content_type or '').startswith('multipart/'):
+            parts = yield 'parts'
+            resp.media = {'parts': parts, 'ctype': req.content_type}
+        else:
+            m = yield 'media'
+            again = yield 'media'
+            resp.media = {'got': m, 'same': m == again, 'ctype': req.content_type}
     elif op == 'text':
         resp.text = 'h\xe9llo €'
         resp.set_header('X-A', 'caf\xe9')
@@ -379,7 +389,15 @@ class SyncRes:
             want = next(g)
             while True:
                 try:
-                    val = req.bounded_stream.read() if want == 'body' else req.get_media()
+                    if want == 'parts':
+                        val = []
+                        for part in req.get_media():
+                            try:
+                                val.append([part.name, part.filename, part.content_type, _norm(part.get_data())])
+                            except falcon.HTTPError as e:
+                                val.append([part.name, 'EXC:%s:%s' % (type(e).__name__, e.status)])
+                    else:
+                        val = req.bounded_stream.read() if want == 'body' else req.get_media()
                 except Exception as e:   # noqa
                     want = g.throw(e)
                 else:
@@ -400,7 +418,15 @@ class AsyncRes:
             want = next(g)
             while True:
                 try:
-                    val = (await req.stream.read()) if want == 'body' else (await req.get_media())
+                    if want == 'parts':
+                        val = []
+                        async for part in (await req.get_media()):
+                            try:
+                                val.append([part.name, part.filename, part.content_type, _norm(await part.get_data())])
+                            except falcon.HTTPError as e:
+                                val.append([part.name, 'EXC:%s:%s' % (type(e).__name__, e.status)])
+                    else:
+                        val = (await req.stream.read()) if want == 'body' else (await req.get_media())
                 except Exception as e:   # noqa
                     want = g.throw(e)
                 else:
@@ -458,6 +484,7 @@ def build_apps(op, opts, nm):
             app = cls()
         ro = app.req_options
         ro.strip_url_path_trailing_slash, ro.keep_blank_qs_values, ro.auto_parse_qs_csv = opts
+        ro.media_handlers[falcon.MEDIA_MULTIPART].parse_options.max_body_part_buffer_size = MP_PART_LIMIT
         if op == 'partial':
             base = SyncRes if kind == 'wsgi' else AsyncRes
             res = type('Partial', (object,), {'__init__': base.__init__, 'on_get': base.run, 'on_post': base.run})(op, nm)
